@@ -308,6 +308,12 @@ func (e *nftEnv) runBlock(pending []chain.M, w *chain.TraceWriter) bool {
 	}
 	for i, ev := range pending {
 		r := res.Txs[i]
+		if r.Aborted {
+			// member of a multi-message transaction that failed as a whole (chain.BundlePct):
+			// whatever it did was rolled back; the specification knows no such event and
+			// treats it as a rejection without effect
+			ev["name"] = "TxFailed"
+		}
 		ev["ok"], ev["panic"] = r.OK, r.Panic
 		st := r.State
 		if st == nil {
